@@ -55,6 +55,7 @@ class Image(UserAttribute):
     @version.register(int)
     def version_int(self, val):
         self._version = val
+        self._ihdr = None
 
     @sdproperty
     def iencoding(self):
@@ -69,6 +70,8 @@ class Image(UserAttribute):
         except ValueError:  # pragma: no cover
             self._iencoding = val
 
+        self._ihdr = None
+
     @sdproperty
     def image(self):
         return self._image
@@ -80,6 +83,7 @@ class Image(UserAttribute):
 
     def __init__(self):
         super(Image, self).__init__()
+        self._ihdr = None
         self.version = 1
         self.iencoding = 1
         self.image = bytearray()
@@ -87,7 +91,11 @@ class Image(UserAttribute):
     def __bytearray__(self):
         _bytes = super(Image, self).__bytearray__()
 
-        if self.version == 1:
+        if self._ihdr is not None:
+            # the image header as it was received: it is part of what certifications of this attribute cover
+            _bytes += self._ihdr
+
+        elif self.version == 1:
             # v1 image header length is always 16 bytes
             # and stored little-endian due to an 'historical accident'
             _bytes += struct.pack('<hbbiii', 16, self.version, self.iencoding, 0, 0, 0)
@@ -98,9 +106,16 @@ class Image(UserAttribute):
     def parse(self, packet):
         super(Image, self).parse(packet)
 
-        with memoryview(packet) as _head:
-            _, self.version, self.iencoding, _, _, _ = struct.unpack_from('<hbbiii', _head[:16].tobytes())
-        del packet[:16]
+        # the first two octets are the length of the image header, little-endian; then its version and the image encoding
+        hlen = struct.unpack_from('<H', bytes(packet[:2]))[0]
+        if not 4 <= hlen <= self.header.length - 1:  # pragma: no cover
+            hlen = min(16, self.header.length - 1)
 
-        self.image = packet[:(self.header.length - 17)]
-        del packet[:(self.header.length - 17)]
+        ihdr = packet[:hlen]
+        del packet[:hlen]
+        self.version = ihdr[2]
+        self.iencoding = ihdr[3]
+        self._ihdr = ihdr
+
+        self.image = packet[:(self.header.length - 1 - hlen)]
+        del packet[:(self.header.length - 1 - hlen)]
